@@ -108,9 +108,9 @@ func genSkeleton(x *Exec, maxR, maxE int, dates bool) absFile {
 
 func checkC04(w *Worker) {
 	w.appInit()
-	maxR, maxE, dev := 2, 2, 2
+	maxR, maxE := 2, 2
 	if w.Tier == "thorough" {
-		maxR, maxE, dev = 3, 3, 3
+		maxR, maxE = 3, 3
 	}
 	check := func(x *Exec, f absFile, text string, what string) {
 		recs, errs, ret, pan := parseAll(text)
@@ -150,12 +150,23 @@ func checkC04(w *Worker) {
 		check(x, f, text, "names-numbers")
 	})
 	// B: every file that departs from the default layout in at most dev places
-	w.Explore(fmt.Sprintf("layout-dev%d", dev), ExploreOpts{ShardDepth: 5, Budgets: map[string]int{"layout": dev}}, func(x *Exec) {
-		f := genSkeleton(x, maxR, maxE, false)
-		text, _ := renderFile(x, f, renderOpts{})
-		x.Case(text, len(f) > 0)
-		check(x, f, text, "layout")
-	})
+	layoutBody := func(r, e int) func(x *Exec) {
+		return func(x *Exec) {
+			f := genSkeleton(x, r, e, false)
+			text, _ := renderFile(x, f, renderOpts{})
+			x.Case(text, len(f) > 0)
+			check(x, f, text, "layout")
+		}
+	}
+	if w.Tier == "quick" {
+		w.Explore("layout-dev2", ExploreOpts{ShardDepth: 5, Budgets: map[string]int{"layout": 2}}, layoutBody(2, 2))
+	} else {
+		// the full 3x3 skeleton space is too large for three deviations: widen one dimension at a time
+		w.Explore("layout-dev2-3x2", ExploreOpts{ShardDepth: 5, Budgets: map[string]int{"layout": 2}}, layoutBody(3, 2))
+		w.Explore("layout-dev2-1x3", ExploreOpts{ShardDepth: 5, Budgets: map[string]int{"layout": 2}}, layoutBody(1, 3))
+		w.Explore("layout-dev3-2x1", ExploreOpts{ShardDepth: 5, Budgets: map[string]int{"layout": 3}}, layoutBody(2, 1))
+		w.Explore("layout-dev3-1x2", ExploreOpts{ShardDepth: 5, Budgets: map[string]int{"layout": 3}}, layoutBody(1, 2))
+	}
 	// C: exotic names and literals under every single layout deviation
 	w.Explore("names-numbers-x-layout-dev1", ExploreOpts{ShardDepth: 3, Budgets: map[string]int{"layout": 1}}, func(x *Exec) {
 		ni := x.Choose(len(genNames), "input:name")
